@@ -20,6 +20,7 @@ TRUSTED_BASE = [
     'axioms allowed in any property theorem: propext, Classical.choice, Quot.sound (audited by #print axioms on every run); no native_decide, no bv_decide, no sorry, no axioms of our own',
     'tools/extract_consts.py (constants are re-extracted from /repo/src on every run)',
     'rs2lean (syn-based translator) + tools/gen_equiv.py: the functions of the tower/group/pairing layers listed under tie.translated_functions are re-translated from /repo/src on every run and proved equal to the model definitions (Sm9/Gen/Equiv.lean)',
+    'rs2lean limb module + tools/gen_limb_equiv.py: the carry-chain / Montgomery functions of arith.rs, u256.rs, u512.rs, fields/fp.rs listed under tie.limb_translated_functions are re-translated on every run (u64/u128 semantics made explicit; ark-ff BigInt primitives mapped to the trusted Big.* model functions) and proved equal to the limb-level model (Sm9/Gen/LimbEquiv.lean)',
     'tools/fingerprint.py: every other hand-modelled function is tied to the exact token stream it was written from; a changed function breaks the tie',
     'the correspondence check (harness + sm9drv): differential testing of model and spec against the compiled crate in two build profiles, bounded by its generators',
     'modelled, not verified: ark-ff BigInt primitives, byteorder, rand (as a u64 script), rustc integer/overflow/debug_assert/panic semantics, lazy_static, alloc::Vec',
@@ -74,7 +75,8 @@ RS2LEAN = os.path.join(VERIF, 'rs2lean', 'target', 'release', 'rs2lean')
 
 # which generated-equals-model theorems a property rests on (prefix of the theorem name in Gen/Equiv.lean)
 EQUIV_PREFIX = {
-    'C12': ['Fq2_'], 'C14': [], 'C11': ['Fq12_', 'Fq4_'], 'C17': ['Fq4_', 'Fq12_', 'G2m_', 'G2Prepared_'],
+    'C06': ['Arith_', 'params_'], 'C07': ['Arith_', 'params_'], 'C13': ['params_'], 'C18': ['Arith_'],
+    'C12': ['Fq2_', 'Arith_', 'params_Fq'], 'C14': [], 'C11': ['Fq12_', 'Fq4_'], 'C17': ['Fq4_', 'Fq12_', 'G2m_', 'G2Prepared_'],
     'C04': ['G1_', 'G2_'], 'C05': ['G1_mul', 'G2_mul', 'G1_double', 'G2_double', 'G1_add', 'G2_add'],
     'C15': ['G1_eq', 'G2_eq', 'G1_to_affine', 'G2_to_affine', 'G1_is_zero', 'G2_is_zero', 'G1_zero', 'G2_zero'],
     'C16': ['G1_', 'G2_'], 'C09': ['G1_mul', 'G2_mul', 'G1_add', 'G2_add', 'G1_eq', 'G2_eq'],
@@ -100,7 +102,7 @@ def equiv_relevant(name, prop, all_names=()):
     return False
 
 
-def run_translator(log):
+def run_translator(log, exclude=()):
     """returns {'ok': bool, 'report': {fn: status}, 'theorems': [names], 'error': str}"""
     gen = os.path.join(LEAN, 'Sm9', 'Gen')
     out = {'ok': False, 'report': {}, 'theorems': [], 'error': ''}
@@ -109,7 +111,7 @@ def run_translator(log):
         if rc != 0:
             out['error'] = 'rs2lean does not build: ' + o[-400:]
             return out
-    rc, o = sh([RS2LEAN, os.path.join(REPO, 'src'), gen], timeout=300)
+    rc, o = sh([RS2LEAN, os.path.join(REPO, 'src'), gen] + ([','.join(sorted(exclude))] if exclude else []), timeout=300)
     if rc != 0:
         out['error'] = 'rs2lean failed: ' + o[-400:]
         return out
@@ -124,15 +126,36 @@ def run_translator(log):
         return out
     txt = open(os.path.join(gen, 'Equiv.lean')).read()
     out['theorems'] = re.findall(r'^theorem\s+(\w+)', txt, flags=re.M)
+    # limb level (arith.rs, u256.rs, u512.rs, fields/fp.rs): Gen/LimbRust.lean + Gen/LimbEquiv.lean
+    out['limb_theorems'], out['limb_report'], out['limb_deps'] = [], {}, {}
+    rc3, o3 = sh([sys.executable, os.path.join(VERIF, 'tools', 'gen_limb_equiv.py'), gen], timeout=120)
+    if rc3 != 0:
+        out['error'] = 'gen_limb_equiv failed: ' + o3[-400:]
+        return out
+    try:
+        out['limb_report'] = json.load(open(os.path.join(gen, 'limb_report.json')))
+        ltxt = open(os.path.join(gen, 'LimbEquiv.lean')).read()
+        out['limb_theorems'] = re.findall(r'^theorem\s+(\w+)', ltxt, flags=re.M)
+        # which earlier theorems each one uses (the rewrite lists of the generated proofs)
+        blocks = re.split(r'^(?=theorem\s)', ltxt, flags=re.M)
+        for b in blocks:
+            m = re.match(r'theorem\s+(\w+)', b)
+            if m:
+                out['limb_deps'][m.group(1)] = sorted(set(re.findall(r'\b(\w+_equiv|params_\w+)\b', b)) - {m.group(1)})
+    except Exception as e:
+        out['error'] = f'limb report unreadable: {e}'
+        return out
     out['ok'] = True
-    log.append(('rs2lean', o.strip() + ' ' + o2.strip()))
+    log.append(('rs2lean', o.strip() + ' ' + o2.strip() + ' ' + o3.strip()))
     return out
 
 
-def write_audit(prop, thms, equiv_names=(), with_equiv=True):
+def write_audit(prop, thms, equiv_names=(), with_equiv=True, limb_names=(), with_limb=True):
     path = os.path.join(LEAN, 'Sm9', 'Audit', prop + '.lean')
-    text = f'import Sm9.Props.{prop}\n' + ('import Sm9.Gen.Equiv\n' if with_equiv else '') + f'-- GENERATED by ./check: axiom audit of every theorem of Props/{prop}.lean and of the generated-equals-model theorems it rests on\n' + \
-        ''.join(f'#print axioms {n}\n' for n, _ in thms) + ''.join(f'#print axioms Sm9.GenEquiv.{n}\n' for n in equiv_names)
+    text = f'import Sm9.Props.{prop}\n' + ('import Sm9.Gen.Equiv\n' if with_equiv else '') + ('import Sm9.Gen.LimbEquiv\n' if with_limb and limb_names else '') + \
+        f'-- GENERATED by ./check: axiom audit of every theorem of Props/{prop}.lean and of the generated-equals-model theorems it rests on\n' + \
+        ''.join(f'#print axioms {n}\n' for n, _ in thms) + ''.join(f'#print axioms Sm9.GenEquiv.{n}\n' for n in equiv_names) + \
+        (''.join(f'#print axioms Sm9.GenL.{n}\n' for n in limb_names) if with_limb else '')
     if not os.path.exists(path) or open(path).read() != text:
         os.makedirs(os.path.dirname(path), exist_ok=True)
         open(path, 'w').write(text)
@@ -165,10 +188,44 @@ def lean_phase(prop, tier, log):
         return res
     # translator: regenerate Sm9/Gen/Rust.lean + Equiv.lean from the current source
     res['translator'] = run_translator(log)
+    # a translated function whose generated text does not elaborate (e.g. the source now calls something
+    # of another type) is left out and reported as untranslated, instead of taking every other function with it
+    excl = set()
+    for _round in range(3):
+        if not res['translator']['ok']:
+            break
+        rcr, outr = sh(['lake', 'build', 'Sm9.Gen.Rust'], cwd=LEAN, timeout=1800)
+        if rcr == 0:
+            break
+        gtxt = open(os.path.join(LEAN, 'Sm9', 'Gen', 'Rust.lean')).read().splitlines()
+        gstarts = [(i + 1, re.match(r'def\s+([\w.]+)', l).group(1)) for i, l in enumerate(gtxt) if l.startswith('def ')]
+        new = set()
+        for l in outr.splitlines():
+            m = re.match(r'error: (\S+?Gen/Rust\.lean):(\d+):(\d+): (.*)', l)
+            if m:
+                owner = [n for (st, n) in gstarts if st <= int(m.group(2))]
+                if owner:
+                    new.add(re.sub(r'\.frob\d+$', '.frobenius_map', owner[-1].rstrip('_') if owner[-1].endswith('from_') else owner[-1]))
+        if not new or new <= excl:
+            break
+        excl |= new
+        log.append(('rs2lean', 'generated text does not elaborate, left out: ' + ', '.join(sorted(new))))
+        res['translator'] = run_translator(log, exclude=excl)
     path, thms = prop_theorems(prop)
-    _all = res['translator'].get('theorems', [])
-    equiv_names = [n for n in _all if equiv_relevant(n, prop, _all)]
-    write_audit(prop, thms, equiv_names)
+    _all = res['translator'].get('theorems', []) + res['translator'].get('limb_theorems', [])
+    equiv_names = [n for n in res['translator'].get('theorems', []) if equiv_relevant(n, prop, _all)]
+    limb_names = [n for n in res['translator'].get('limb_theorems', []) if equiv_relevant(n, prop, _all)]
+    # a limb theorem rests on the earlier ones it rewrites with
+    deps = res['translator'].get('limb_deps', {})
+    grow = True
+    while grow:
+        grow = False
+        for n in list(limb_names):
+            for d in deps.get(n, []):
+                if d in deps and d not in limb_names:
+                    limb_names.append(d); grow = True
+    limb_names = [n for n in res['translator'].get('limb_theorems', []) if n in set(limb_names)]
+    write_audit(prop, thms, equiv_names, limb_names=limb_names)
     t0 = time.time()
     rc, out = sh(['lake', 'build', 'sm9drv'], cwd=LEAN, timeout=3600)
     if rc != 0:
@@ -206,8 +263,40 @@ def lean_phase(prop, tier, log):
             else:
                 for n in res['translator'].get('theorems', []):
                     equiv_failed.setdefault(n, 'Equiv.lean does not build even without the failing theorems')
+    # limb-level equivalences
+    limb_failed = {}
+    rcl = 0
+    if limb_names:
+        rcl, outl = sh(['lake', 'build', 'Sm9.Gen.LimbEquiv'], cwd=LEAN, timeout=3600)
+        if rcl != 0:
+            ltxt = open(os.path.join(LEAN, 'Sm9', 'Gen', 'LimbEquiv.lean')).read().splitlines()
+            lstarts = [(i + 1, re.match(r'theorem\s+(\w+)', l).group(1)) for i, l in enumerate(ltxt) if l.startswith('theorem')]
+            lgeneric = None
+            for l in outl.splitlines():
+                m = re.match(r'error: (\S+?\.lean):(\d+):(\d+): (.*)', l)
+                if not m:
+                    continue
+                if m.group(1).endswith('LimbEquiv.lean'):
+                    owner = [n for (st, n) in lstarts if st <= int(m.group(2))]
+                    if owner:
+                        limb_failed.setdefault(owner[-1], m.group(4))
+                else:
+                    lgeneric = f'{m.group(1)}:{m.group(2)}: {m.group(4)}'
+            if not limb_failed:
+                for n in res['translator'].get('limb_theorems', []):
+                    limb_failed[n] = 'generated limb-level definitions do not build: ' + (lgeneric or outl[-300:])
+            else:
+                # everything that rewrites with a failed theorem is unproved too
+                grow = True
+                while grow:
+                    grow = False
+                    for n, ds in deps.items():
+                        if n not in limb_failed and any(d in limb_failed for d in ds):
+                            limb_failed[n] = 'rests on ' + next(d for d in ds if d in limb_failed) + ', which no longer checks'
+                            grow = True
+            write_audit(prop, thms, [n for n in equiv_names if n not in equiv_failed], with_equiv=(rce == 0), limb_names=limb_names, with_limb=False)
     rc, out = sh(['lake', 'build', f'Sm9.Props.{prop}'], cwd=LEAN, timeout=7200)
-    log.append(('lake build', f'{time.time()-t0:.1f}s rc={rc} equiv_rc={rce}'))
+    log.append(('lake build', f'{time.time()-t0:.1f}s rc={rc} equiv_rc={rce} limb_rc={rcl}'))
     failed_lines = []
     if rc != 0:
         res['build_ok'] = False
@@ -219,7 +308,7 @@ def lean_phase(prop, tier, log):
     axioms = {}
     if rc == 0 and rce != 0:
         # audit the property theorems alone when the generated equivalences do not build
-        write_audit(prop, thms, (), with_equiv=False)
+        write_audit(prop, thms, (), with_equiv=False, limb_names=limb_names, with_limb=(rcl == 0))
     if rc == 0:
         rc2, out2 = sh(['lake', 'env', 'lean', os.path.join('Sm9', 'Audit', prop + '.lean')], cwd=LEAN, timeout=1800)
         for m in re.finditer(r"'([^']+)' depends on axioms: \[([^\]]*)\]", out2):
@@ -273,10 +362,30 @@ def lean_phase(prop, tier, log):
             else:
                 st, why = 'proved', ''
         res['equiv'].append({'name': 'GenEquiv.' + n, 'status': st, 'axioms': axioms.get('Sm9.GenEquiv.' + n), 'why': why})
-    res['equiv_failed'] = equiv_failed
+    for n in limb_names:
+        if not res['translator']['ok']:
+            st, why = 'failed', res['translator']['error']
+        elif n in limb_failed:
+            st, why = 'failed', limb_failed[n]
+        elif rcl != 0:
+            st, why = 'proved', 'elaborated without error; axioms not audited in this run (another theorem of Gen/LimbEquiv.lean failed)'
+        else:
+            ax = axioms.get('Sm9.GenL.' + n)
+            if rc != 0:
+                st, why = 'proved', 'built; axioms not audited in this run (property file failed)'
+            elif ax is None:
+                st, why = 'failed', 'no axiom report'
+            elif not set(ax) <= ALLOWED_AXIOMS:
+                st, why = 'failed', 'disallowed axioms'
+            else:
+                st, why = 'proved', ''
+        res['equiv'].append({'name': 'GenL.' + n, 'status': st, 'axioms': axioms.get('Sm9.GenL.' + n), 'why': why})
+    res['equiv_failed'] = dict(equiv_failed, **limb_failed)
     ok_names = set()
     if res['translator']['ok'] and (rce == 0 or equiv_failed):
         ok_names = set(res['translator']['theorems']) - set(equiv_failed)
+    if res['translator']['ok']:
+        ok_names |= set(res['translator'].get('limb_theorems', [])) - set(limb_failed)
     res['equiv_ok_names'] = sorted(ok_names)
     if tier == 'thorough' and res['build_ok']:
         rc3, out3 = sh(['lake', 'env', 'leanchecker', f'Sm9.Props.{prop}'], cwd=LEAN, timeout=3600)
@@ -324,6 +433,21 @@ def fp_cover(key, all_names):
             names = ['G2Prepared_from']
         elif ctx == '' and fn in ('pairing', 'fast_pairing', 'bit'):
             names = [f'Pairings_{fn}']
+    elif rel == 'arith.rs' and ctx == '' and fn in ('adc', 'sbb', 'mac', 'mac_discard'):
+        names = [f'Arith_{fn}_equiv']
+    elif rel == 'u256.rs' and ctx == 'impl U256':
+        names = [f'U256_{fn}_equiv'] + {'add_carry': ['U256_add_carry_loop1_equiv'],
+                                        'invert': ['U256_invert_loop1_equiv', 'U256_invert_loop2_equiv', 'U256_invert_loop3_equiv'],
+                                        'set_bit': [f'U256_set_bit_bound{i}' for i in range(1, 7)]}.get(fn, [])
+    elif rel == 'u512.rs' and ctx == 'impl U512' and fn in ('bit_length', 'get_bit'):
+        names = [f'U512_{fn}_equiv']
+    elif rel == 'fields/fp.rs':
+        if ctx == 'impl Fq' and fn in ('div2', 'sqrt', 'sum_of_products'):
+            names = [f'Fq_{fn}_equiv']
+        elif ctx == 'macro_rules! field_impl / impl From < $ name > for U256' and fn == 'from':
+            names = ['Fp_into_u256_equiv']
+        elif re.fullmatch(r'macro_rules! field_impl / impl (FieldElement for |One for |Zero for )?\$ name', ctx):
+            names = [f'Fp_{fn}_equiv']
     elif rel == 'lib.rs':
         m = re.fullmatch(r'impl (G[12])', ctx)
         if m and fn in ('from_compressed', 'to_compressed', 'to_uncompressed', 'from_uncompressed', 'to_slice', 'from_slice'):
@@ -564,7 +688,7 @@ def decide(prop, tier, seed, replay, lean, bins, hooks, herr, driver, fp, workdi
     broken = []   # descriptions of broken obligations / correspondences without an exhibited failing input
     failed_thms = [t for t in lean['theorems'] if t['status'] != 'proved'] + [t for t in lean.get('equiv', []) if t['status'] != 'proved']
     # a changed function whose definition was re-translated and re-proved equal to the model is not a broken tie
-    all_names = set(lean.get('translator', {}).get('theorems', []))
+    all_names = set(lean.get('translator', {}).get('theorems', [])) | set(lean.get('translator', {}).get('limb_theorems', []))
     ok_names = set(lean.get('equiv_ok_names', []))
     still_changed, retranslated = [], []
     for entry in fp['changed']:
@@ -645,6 +769,8 @@ def decide(prop, tier, seed, replay, lean, bins, hooks, herr, driver, fp, workdi
                     'changed_but_retranslated_and_reproved': fp.get('retranslated', []),
                     'translated_functions': len([v for v in lean.get('translator', {}).get('report', {}).values() if v == 'translated']),
                     'untranslated': {k: v for k, v in lean.get('translator', {}).get('report', {}).items() if v != 'translated'},
+                    'limb_translated_functions': len([v for v in lean.get('translator', {}).get('limb_report', {}).values() if v == 'translated']),
+                    'limb_untranslated': {k: v for k, v in lean.get('translator', {}).get('limb_report', {}).items() if v != 'translated'},
                     'generated_equals_model': lean.get('equiv', []),
                     'hooks_built': hooks},
             'evaluations': evals, 'distinct_nontrivial': distinct,
